@@ -229,6 +229,11 @@ class Linear2StageBattery(Battery):
         if pilot == 0:
             self._current_charging_power = 0
             return 0
+        if self._soc >= 1:
+            # A full battery accepts no charge (the maximum power of the law is 0 at
+            # SoC 1); the closed form below divides by zero there for tiny pilots.
+            self._current_charging_power = 0
+            return 0
         # All calculations are done in terms of battery SoC, so we
         # convert pilot signal and max power into pilot and max rate of
         # change of SoC.
